@@ -532,6 +532,12 @@ impl St {
                 };
                 S::tag("ok", vec![S::a(c), S::bool(a.contains(&b))])
             }
+            "key" => match pep508_rs::MarkerValue::from_str(&l[1].string()) {
+                Ok(pep508_rs::MarkerValue::MarkerEnvVersion(k)) => S::tag("verkey", vec![vkey(&k), S::str(&k.to_string())]),
+                Ok(pep508_rs::MarkerValue::MarkerEnvString(k)) => S::tag("strkey", vec![skey(&k), S::str(&k.to_string())]),
+                Ok(pep508_rs::MarkerValue::Extra) => S::a("extra"),
+                _ => S::a("err"),
+            },
             "ping" => S::a("pong"),
             _ => S::tag("unknown-op", vec![S::a(op)]),
         }
